@@ -16,6 +16,8 @@ type LeafEntry struct {
 	Delete             bool
 	DeleteOnlyIntended bool
 	IsUpdated          bool
+	// oldPriority is the priority the entry had before it was updated within the actual transaction
+	oldPriority *int32
 
 	mu sync.RWMutex
 }
@@ -28,6 +30,11 @@ func (l *LeafEntry) GetEntry() Entry {
 func (l *LeafEntry) MarkUpdate(u *cache.Update) {
 	l.mu.Lock()
 	defer l.mu.Unlock()
+	// remember the priority the entry was stored with
+	if l.oldPriority == nil && l.Update != nil {
+		p := l.Update.Priority()
+		l.oldPriority = &p
+	}
 	// set the new value
 	l.Update = u
 	// set the update flag
@@ -35,6 +42,16 @@ func (l *LeafEntry) MarkUpdate(u *cache.Update) {
 	// reset the delete flag
 	l.Delete = false
 	l.IsNew = false
+}
+
+// PriorityBeforeTransaction returns the priority the entry had before the actual transaction updated it.
+func (l *LeafEntry) PriorityBeforeTransaction() int32 {
+	l.mu.RLock()
+	defer l.mu.RUnlock()
+	if l.oldPriority != nil {
+		return *l.oldPriority
+	}
+	return l.Update.Priority()
 }
 
 func (l *LeafEntry) MarkNew() {
